@@ -158,17 +158,38 @@ def r4_dtype_gate(run, tree):
     ct.check_dtype_gate(run, tree, want_numeric=True, want_bool=True)
 
 
-def check_out_branch(run, tree):
+def out_aliases(f):
+    """local names bound to kwargs.pop('out', ...) / kwargs.get('out', ...) / kwargs['out']"""
+    names = set()
+    for n in walk_no_nested(f.fi.node):
+        if isinstance(n, ast.Assign) and len(n.targets) == 1 and isinstance(n.targets[0], ast.Name):
+            v = n.value
+            if isinstance(v, ast.Call) and isinstance(v.func, ast.Attribute) and is_name(v.func.value, f.KW) and \
+                    v.func.attr in ("pop", "get") and v.args and const_value(v.args[0]) == "out":
+                names.add(n.targets[0].id)
+            if isinstance(v, ast.Subscript) and is_name(v.value, f.KW) and const_value(v.slice) == "out":
+                names.add(n.targets[0].id)
+    return names
+
+
+def check_out_branch(run, tree, aliasing=True):
     f = ct.analyse_wrap_numpy(tree)
     fi = f.fi
     run.analysed(fi)
     n_out = 0
+    aliases = out_aliases(f)
+    f.out_aliases = aliases
     for p in f.paths:
         has_out = None
         for test, outcome in p["conds"]:
             if isinstance(test, ast.Compare) and const_value(test.left) == "out" and len(test.ops) == 1 and is_name(
                     test.comparators[0], f.KW):
                 has_out = outcome if isinstance(test.ops[0], ast.In) else (not outcome)
+            if isinstance(test, ast.Compare) and isinstance(test.left, ast.Name) and test.left.id in aliases and len(test.ops) == 1 \
+                    and isinstance(test.comparators[0], ast.Constant) and test.comparators[0].value is None:
+                has_out = outcome if isinstance(test.ops[0], ast.IsNot) else (not outcome)
+            if isinstance(test, ast.Name) and test.id in aliases:
+                has_out = outcome
         if p["exit"][1] != "return":
             continue
         rv = p["exit"][2].value
@@ -179,14 +200,14 @@ def check_out_branch(run, tree):
             for it in p["path"]:
                 if it[0] == "stmt" and isinstance(it[1], ast.Assign):
                     for t in it[1].targets:
-                        if isinstance(t, ast.Attribute) and t.attr == "unit" and _is_out0(t.value, f.KW):
+                        if isinstance(t, ast.Attribute) and t.attr == "unit" and _is_out0(t.value, f.KW, aliases):
                             stored = it[1]
             ok_store = stored is not None and is_name(stored.value, "unit")
             run.ob(ct.ARRAY + "._wrap_numpy::out-unit-store", ok_store, fi.where(stored) if stored else fi.where(),
                    "with out=: %s" % ("the derived unit is assigned to out[0].unit" if ok_store else
                                       "the unit of the out object is not updated with the derived unit"),
                    "x *= y keeps the old unit of x")
-            run.ob(ct.ARRAY + "._wrap_numpy::out-returned", rv is not None and _is_out0(rv, f.KW), fi.where(p["exit"][2]),
+            run.ob(ct.ARRAY + "._wrap_numpy::out-returned", rv is not None and _is_out0(rv, f.KW, aliases), fi.where(p["exit"][2]),
                    "with out=: returns %s" % (norm(rv) if rv is not None else "None"),
                    "x += y rebinds x to a new object: other references to the same Array do not see the update")
         elif has_out is False:
@@ -197,6 +218,8 @@ def check_out_branch(run, tree):
                    "the derived unit is not attached to the result", nontrivial=False)
     if n_out == 0:
         run.unresolved(ct.ARRAY + "._wrap_numpy::out-branch", fi.where(), "no path handles out=")
+    if not aliasing:
+        return
     # numpy must receive out (so that it writes into the existing buffer): the result call forwards the processed kwargs
     rc = None
     for p in f.paths:
@@ -239,16 +262,20 @@ def check_out_branch(run, tree):
            "operands dropped", nontrivial=False)
 
 
-def _is_out0(node, KW):
-    """kwargs["out"][0]"""
-    return (isinstance(node, ast.Subscript) and const_value(node.slice) == 0 and isinstance(node.value, ast.Subscript)
-            and is_name(node.value.value, KW) and const_value(node.value.slice) == "out")
+def _is_out0(node, KW, aliases=()):
+    """kwargs["out"][0]  or  <alias of kwargs['out']>[0]"""
+    if not (isinstance(node, ast.Subscript) and const_value(node.slice) == 0):
+        return False
+    v = node.value
+    if isinstance(v, ast.Name) and v.id in aliases:
+        return True
+    return isinstance(v, ast.Subscript) and is_name(v.value, KW) and const_value(v.slice) == "out"
 
 
 def r5_out(run, tree):
-    run.rule("C10.R5", "out=: unit written to the out object, that object returned, buffer written by numpy", "path rule", "",
-             floor=3)
-    check_out_branch(run, tree)
+    run.rule("C10.R5", "out=: unit written to the out object, that object returned", "path rule", "",
+             floor=2)
+    check_out_branch(run, tree, aliasing=False)
 
 
 def r6_helpers(run, tree):
